@@ -88,7 +88,13 @@ Stop == /\ inrun
         /\ Call("stop")
         /\ rundocs' = Append(rundocs, Tok) /\ inrun' = FALSE /\ UNCHANGED run
 
-Next == Start \/ Other \/ Stop
+\* the previous run's stop never reached this writer (an upstream consumer failed, the session was killed, ...): the next
+\* run's start arrives while the writer still is inside a run
+StartOver == /\ inrun /\ run < MaxRuns
+             /\ Call("start")
+             /\ run' = run + 1 /\ inrun' = TRUE /\ rundocs' = <<Tok>>
+
+Next == Start \/ StartOver \/ Other \/ Stop
 Spec == Init /\ [][Next]_vars
 
 ----------------------------------------------------------------------------
